@@ -29,8 +29,9 @@ from vt.ref import sched as _sched
 PID = "C26"
 LEVEL = "exploration"
 EXHAUSTIVE = (
-    "sequential part: every history of length 1..4 over the 21-operation alphabet (get/[]/set/del/setdefault x 3 keys, "
-    "'a' in, len, clear, copy, pickle round trip, full observation) x capacities 1..3 = 612 612 histories is executed in "
+    "sequential part: every history of length 1..4 over the 24-operation alphabet (get/[]/set/del/setdefault x 3 keys, "
+    "'a' in, len, clear, copy, pickle round trip, full observation, open an iterator / a reversed iterator, one step of the "
+    "open iterator) x capacities 1..3 = 1 038 600 histories is executed in "
     "every tier; the concurrent part is a sampled exploration"
 )
 RULE = (
@@ -47,6 +48,8 @@ RULE = (
 ASSUMPTIONS = [
     "the OrderedDict model is the specification of 'least recently used': get/[]/set/setdefault make the key most recent, "
     "a set on a full cache evicts the least recent key, keys()/items()/values()/iter list most recent first, reversed() oldest first",
+    "iter(cache) / reversed(cache) yield the keys as they were when the iterator was created; later mutations neither change nor break it "
+    "(`for k in cache: cache[k]` must work)",
     "capacity >= 1 (Environment never builds an LRUCache(0): create_cache returns None for size 0)",
     "concurrency is explored at Python line (thorough: also opcode) granularity under the GIL with a deterministic scheduler; "
     "races inside C-level deque/dict operations (free-threading) are out of reach",
@@ -152,6 +155,10 @@ class SeqRun:
         self.real = LRUCache(cap)
         self.model = Model(cap)
         self.frozen = []  # (description, real object, expected observation)
+        self.nstep_mut = 0  # number of state-changing steps so far
+        self.it_born = 0  # ... when the open iterator was created
+        self.it = None  # open iterator over the real cache
+        self.snap = None  # what the model says the open iterator still has to yield
         self.nstep = 0
         self.labels = set()
 
@@ -187,6 +194,13 @@ class SeqRun:
                 pass
             elif name == "obs":
                 exp = model.obs()
+            elif name == "iter":
+                self.snap = list(reversed(model.d))
+            elif name == "riter":
+                self.snap = list(model.d)
+            elif name == "next":
+                # an iterator yields the keys as they were when it was created, whatever happened since
+                exp = "noiter" if self.snap is None else ["key", self.snap.pop(0)] if self.snap else "stop"
             else:
                 raise core.HarnessError("unknown operation %r" % (op,))
         except KeyError:
@@ -228,6 +242,24 @@ class SeqRun:
                 got = None
             elif name == "obs":
                 got = _observe(real)
+            elif name == "iter":
+                self.it = iter(real)
+                self.labels.add("iterator")
+                got = None
+            elif name == "riter":
+                self.it = reversed(real)
+                self.labels.add("iterator")
+                got = None
+            elif name == "next":
+                if self.it is None:
+                    got = "noiter"
+                else:
+                    try:
+                        got = ["key", next(self.it)]
+                    except StopIteration:
+                        got = "stop"
+                    if self.nstep_mut > self.it_born:
+                        self.labels.add("iterator_after_mutation")
         except KeyError:
             if exp_exc is not KeyError:
                 self._fail(op, "raised KeyError, the model returns %r" % (exp,))
@@ -243,8 +275,16 @@ class SeqRun:
         if n != len(model.d):
             self._fail(op, "len() is %d afterwards, the model holds %d entries" % (n, len(model.d)))
         self.nstep = i + 1
+        if name in ("iter", "riter"):
+            self.it_born = self.nstep_mut
+        elif name not in ("next", "len", "in", "obs"):
+            self.nstep_mut += 1
 
     def finish(self):
+        if self.it is not None:
+            rest = list(self.it)
+            if rest != self.snap:
+                raise core.Violation("capacity %d: draining the open iterator after %d steps gave %r, its snapshot still holds %r" % (self.cap, self.nstep, rest, self.snap))
         got, exp = _observe(self.real), self.model.obs()
         if got != exp:
             raise core.Violation("capacity %d, final observation after %d steps: got %r, the model has %r" % (self.cap, self.nstep, got, exp))
@@ -505,7 +545,7 @@ def check_known(entry):
 ALPHABET = (
     [["get", k] for k in KEYS3] + [["getitem", k] for k in KEYS3] + [["set", k] for k in KEYS3]
     + [["del", k] for k in KEYS3] + [["setdefault", k] for k in KEYS3]
-    + [["in", "a"], ["len"], ["clear"], ["copy"], ["pickle"], ["obs"]]
+    + [["in", "a"], ["len"], ["clear"], ["copy"], ["pickle"], ["obs"], ["iter"], ["riter"], ["next"]]
 )
 MUTATING = [[n, k] for n in ("getitem", "set", "del", "setdefault") for k in KEYS3] + [["clear"]]
 
@@ -574,7 +614,7 @@ def _run_machine(ctx, rec, max_examples, steps, tag):
         def keyed(self, name, k):
             self._do([name, k])
 
-        @rule(name=st.sampled_from(["len", "obs", "obs", "copy", "copymod", "clear"]))
+        @rule(name=st.sampled_from(["len", "obs", "obs", "copy", "copymod", "clear", "iter", "riter", "next", "next", "next"]))
         def plain(self, name):
             self._do([name])
 
@@ -694,7 +734,7 @@ def run_shard(spec, ctx):
 
 def floors(total, tier):
     lab = total.labels
-    need = {"conc": 1000, "pre_in_mutator": 300, "lock_contended": 100, "evict": 1000, "recency": 1000, "copy": 100, "pickle": 100, "threads=3": 100}
+    need = {"iterator_after_mutation": 1000, "conc": 1000, "pre_in_mutator": 300, "lock_contended": 100, "evict": 1000, "recency": 1000, "copy": 100, "pickle": 100, "threads=3": 100}
     low = ["%s=%d (< %d)" % (k, lab.get(k, 0), v) for k, v in need.items() if lab.get(k, 0) < v]
     if total.violations:
         return None
